@@ -1969,8 +1969,8 @@ func propC14(run *Run, n int) {
 }
 
 func cliFixedMatrix() []*cliCfg {
-	a := VArr(VObj("id", VNum(1), "k", VNum(2), "v", VNum(1)), VObj("id", VNum(2), "k", VNum(1), "v", VNum(2)), VNum(1), VNum(1.00001))
-	b := VArr(VObj("id", VNum(2), "k", VNum(1), "v", VNum(2)), VNum(1.00001), VObj("id", VNum(1), "k", VNum(2), "v", VNum(9)), VNum(1))
+	a := VArr(VObj("id", VNum(1), "k", VNum(2), "v", VNum(1)), VObj("id", VNum(3), "k", VNum(4), "v", VNum(2)), VNum(5), VNum(5.00001))
+	b := VArr(VObj("id", VNum(3), "k", VNum(4), "v", VNum(2)), VNum(5.00001), VObj("id", VNum(1), "k", VNum(2), "v", VNum(9)), VNum(5))
 	out := []*cliCfg{}
 	for _, bin := range [][2]string{{"v2jd", ""}, {"top", ""}, {"top", "false"}} {
 		for _, opt := range []func(c *cliCfg){
